@@ -278,10 +278,11 @@ def api_requests(app):
             for br in BRANCHES_BAD:
                 variants.append((r.rule.replace('<path:branch>', br), None,
                                  False, {'branch': br}))
-            for fr in FROM_BAD:
-                variants.append((r.rule.replace(
-                    '<path:branch>', BRANCHES_OK[0]), {'branch_from': fr},
-                    'from_bad', {'branch': BRANCHES_OK[0]}))
+            for br in BRANCHES_OK:
+                for fr in FROM_BAD:
+                    variants.append((r.rule.replace('<path:branch>', br),
+                                     {'branch_from': fr}, 'from_bad',
+                                     {'branch': br}))
         elif '<int:pr_id>' in r.rule:
             for pid, ok in (('1', True), ('42', True), ('0', False),
                             ('-1', False), ('a', False)):
